@@ -16,7 +16,7 @@ open Paloma.Abi Paloma.SignBytes Paloma.Attest
   rm <id>                                                                  → ok
   attest <id> none | err | other | tx <hash> <status|-> <data> <deployLog 0|1>
       → <class> q=<ids> proc=<0|1|-> fx=<effects> active=<n> deps=<…> snap=<0|1>
-        class: nil | txfailed | notverified | err | panic | unknown
+        class: nil | txfailed | notverified | err | unknown
 -/
 
 def parseSig? (s : String) : Option SignData :=
@@ -106,7 +106,6 @@ def resClass (r : Res) : String :=
   | .txFailed => "txfailed"
   | .notVerified => "notverified"
   | .alreadyProcessed | .receiptErr | .postErr => "err"
-  | .panic => "panic"
 
 def parseWinner? (args : List String) : Option Winner :=
   match args with
